@@ -291,9 +291,16 @@ func (c39) NewRun(plan *simrt.Source, job *harn.Job) harn.Run {
 				if (o.Kind == "call" || o.Kind == "notify") && plan.Chance(120) {
 					o.CallCtx = 1 + plan.Draw(12)
 				}
+				if o.Kind == "notify" && plan.Chance(350) {
+					o.ReAwait = true
+				}
 				if o.Kind == "wait" && k != n-1 {
 					o.Kind = "yield"
 					o.N = 3
+				}
+				if o.Kind == "close" && plan.Chance(400) {
+					// a notification still being written when Close is called
+					tp.Ops = append(tp.Ops, opPlan{Kind: "notify", Method: "echo", ReAwait: true})
 				}
 				tp.Ops = append(tp.Ops, o)
 				if o.Kind == "close" || o.Kind == "wait" {
@@ -1151,6 +1158,17 @@ func (r *c39run) Body(s *simrt.Sim) {
 				case "notify":
 					r.nonce++
 					nctx, done := r.opCtx(o.CallCtx)
+					if o.ReAwait { // (reused flag) the notification is sent by a goroutine of its own: the task goes on, maybe to Close, while the write is still in progress
+						n, method := r.nonce, o.Method // (the scratch module has pre-1.22 loop variables)
+						r.tasksAll++
+						simrt.Go(name+".notifier", func() {
+							ep.conn.Notify(nctx, method, params{Nonce: n})
+							done()
+							r.tasksDone++
+						})
+						r.sim.Probe("notify-in-background")
+						break
+					}
 					ep.conn.Notify(nctx, o.Method, params{Nonce: r.nonce})
 					done()
 				case "close":
